@@ -86,7 +86,9 @@ func tokText(t string) string {
 		return "("
 	case "):exp", "):mix":
 		return ")"
-	case "<nl>":
+	case "<nl>", "<lt>", "<lts>":
+		// "<nl>": a line break that ends a statement (automatic semicolon insertion); "<lt>": a line break inside a statement;
+		// "<lts>": a line break before the semicolon that ends the statement
 		return "\n"
 	}
 	return t
@@ -168,7 +170,7 @@ func without(toks []string, idx ...int) []string {
 func nlPairs(toks []string) []string {
 	out := []string{}
 	for i, t := range toks {
-		if t == "<nl>" {
+		if t == "<nl>" || t == "<lt>" || t == "<lts>" {
 			a, b := "", ""
 			if i > 0 {
 				a = tokText(toks[i-1])
